@@ -264,3 +264,27 @@ Lemma string_both r coll cc s :
   client_body r EString coll OJson cc (BText s) =
   {| c_status := 200; c_body := BJson (JObj [("content", JStr s)]) |}.
 Proof. split; apply model_expected; reflexivity. Qed.
+
+(* ---- glue: explicitly empty lists and pass-through modifier plugins change nothing ---- *)
+Lemma wrap_unwrap_id r : wrap_unwrap r = r.
+Proof. destruct r; reflexivity. Qed.
+
+Lemma through_plugins_id p r : through_plugins p r = r.
+Proof. destruct p; unfold through_plugins; simpl; rewrite ?wrap_unwrap_id; reflexivity. Qed.
+
+Lemma format_full_empty d : format_full [] [] [] "" d = d.
+Proof. unfold format_full. simpl. apply pipeline_id. Qed.
+
+Lemma client_body_x_eq r e coll o cc x b : client_body_x r e coll o cc x b = client_body r e coll o cc b.
+Proof.
+  unfold client_body_x, client_body. destruct (decode e coll b); [|reflexivity].
+  rewrite through_plugins_id, format_full_empty, pipeline_id. reflexivity.
+Qed.
+
+Lemma noop_client_x_eq r cc x st hs body : noop_client_x r cc x st hs body = noop_client r cc st hs body.
+Proof. unfold noop_client_x. rewrite through_plugins_id. reflexivity. Qed.
+
+(* a non-empty allow list IS manipulation: witness (outside the property) *)
+Lemma allow_list_manipulates :
+  format_full ["a"] [] [] "" (DMap [("a", JNull); ("b", JNull)]) = DMap [("a", JNull)].
+Proof. reflexivity. Qed.
